@@ -87,7 +87,7 @@ func init() {
 			ts = append(ts, qrBlockTasks(tier)...)
 			// end to end: kind(0 digits,1 alnum,2 ascii bytes,3 utf-8), n chars, level, mask, forced version (0 = choose)
 			e2e := [][5]int64{
-				{0, 1, 0, 0, 0}, {0, 3, 1, 1, 0}, {0, 7, 2, 2, 0}, {0, 12, 3, 3, 0}, {0, 17, 3, 4, 1}, {0, 41, 0, 5, 1}, {0, 42, 0, 6, 0}, {0, 8, 1, 7, 10}, {0, 6, 2, 0, 27},
+				{0, 1, 0, 0, 0}, {0, 3, 1, 1, 0}, {0, 34, 1, 1, 1}, {0, 27, 2, 6, 1}, {0, 7, 2, 2, 0}, {0, 12, 3, 3, 0}, {0, 17, 3, 4, 1}, {0, 41, 0, 5, 1}, {0, 42, 0, 6, 0}, {0, 8, 1, 7, 10}, {0, 6, 2, 0, 27},
 				{1, 1, 0, 1, 0}, {1, 2, 1, 2, 0}, {1, 3, 2, 3, 0}, {1, 4, 3, 4, 0}, {1, 3, 0, 5, 10}, {1, 3, 1, 6, 27},
 				{2, 1, 0, 2, 0}, {2, 2, 1, 3, 0}, {2, 4, 2, 4, 0}, {2, 5, 3, 5, 0}, {2, 5, 0, 3, 10}, {2, 3, 1, 0, 27},
 				{3, 2, 0, 6, 0}, {3, 3, 1, 7, 0}, {3, 4, 3, 0, 0},
@@ -108,7 +108,7 @@ func init() {
 			b := map[string]interface{}{
 				"matrix_layer": "per (version, level, mask): all bits of the codeword stream free (up to 29648 at version 40) — quick: 144 configurations (versions 1, 2, 7 x all 32; 6, 9, 10, 14 x 8 masks; 21, 26, 27 x 4; 32, 40 x 2 seeded), thorough: all 1280",
 				"block_layer":  "every data byte free (up to 2956): quick 16 versions (1-10, 14, 21, 26, 27, 32, 40) x 4 levels, thorough all 160 (version, level)",
-				"end_to_end":   "real Encoder_encode and Decoder.Decode with 1..42 free characters (digits up to the version-1 capacity boundary 41/42 and 17 at 1-H, alphanumeric <= 4, bytes <= 5, UTF-8 <= 4), forced masks 0..7, versions 1, 2, 10, 27 or recommended",
+				"end_to_end":   "real Encoder_encode and Decoder.Decode with 1..42 free characters (digits up to the version-1 capacity boundary 41/42, 17 at 1-H, and the exact byte-aligned fills 34 at 1-M and 27 at 1-Q, alphanumeric <= 4, bytes <= 5, UTF-8 <= 4), forced masks 0..7, versions 1, 2, 10, 27 or recommended",
 			}
 			return b
 		},
